@@ -103,7 +103,13 @@ def mutate_tree(tree, op):
     kind = op[0]
     try:
         if kind == "move":
-            tree[op[1] % n].parent = tree[op[2] % n]
+            node, target = tree[op[1] % n], tree[op[2] % n]
+            cur = target
+            while cur is not None and cur is not node:
+                cur = cur.parent
+            if cur is node:
+                return  # would be a loop: refused moves are simply skipped (without asking the library to word a refusal)
+            node.parent = target
         elif kind == "detach":
             tree[op[1] % n].parent = None
         elif kind == "reverse":
